@@ -242,6 +242,7 @@ namespace pika::resource::detail {
         threads::detail::topology& topo = get_topology();
 
         std::size_t pid = 0;
+        std::size_t core_offset = 0;
         std::size_t num_sockets = topo.get_number_of_sockets();
         sockets_.reserve(num_sockets);
 
@@ -262,7 +263,7 @@ namespace pika::resource::detail {
                 nd.cores_.emplace_back(j, &nd);
                 core& c = nd.cores_.back();
 
-                std::size_t core_pus = topo.get_number_of_core_pus(j);
+                std::size_t core_pus = topo.get_number_of_core_pus(core_offset + j);
                 c.pus_.reserve(core_pus);
 
                 bool core_contains_exposed_pus = false;
@@ -289,6 +290,8 @@ namespace pika::resource::detail {
                 if (core_contains_exposed_pus) { socket_contains_exposed_cores = true; }
                 else { nd.cores_.pop_back(); }
             }
+
+            core_offset += socket_cores;
 
             if (!socket_contains_exposed_cores) { sockets_.pop_back(); }
         }
